@@ -37,7 +37,7 @@ theorem sublist_nonWs {a b : Str} (h : a.Sublist b) : (nonWs a).Sublist (nonWs b
 theorem nonWs_inlineMarkup (sty : Styles) (a : Attrs) (t : Str) : (nonWs t).Sublist (nonWs (inlineMarkup sty a t)) := by
   unfold inlineMarkup
   split
-  · rename_i h; rw [nonWs_of_strip_empty t h]; exact List.nil_sublist _
+  · exact List.Sublist.refl _
   · simp only []
     split
     · exact sublist_nonWs ((List.sublist_append_right [96] t).trans (List.sublist_append_left _ _))
@@ -47,7 +47,7 @@ theorem nonWs_inlineMarkup (sty : Styles) (a : Attrs) (t : Str) : (nonWs t).Subl
 def leafMethod (m : MName) : Bool :=
   m == .text_s || m == .text_tab || m == .text_line_break || m == .do_nothing || m == .draw_image
 
-def notBlock (q : Str) : Prop := q ≠ tTextBox ∧ q ≠ tFrame ∧ q ≠ tP ∧ q ≠ tH ∧ q ≠ tList
+def notBlock (q : Str) : Prop := q ≠ tTextBox ∧ q ≠ tFrame ∧ q ≠ tP ∧ q ≠ tH ∧ q ≠ tList ∧ q ≠ tTable ∧ q ≠ tSection
 
 mutual
 /-- inline content: text, elements converted by `inline_markup`, and leaf methods -/
@@ -76,18 +76,18 @@ theorem nodeStr_markup (sty : Styles) (st : MSt) (q : Str) (a : Attrs) (kids : L
       match kidsStr sty st kids with
       | .error e => .error e
       | .ok (t, st1) => .ok (inlineMarkup sty a t, st1) := by
-  obtain ⟨h1, h2, h3, h4, h5⟩ := h
+  obtain ⟨h1, h2, h3, h4, h5, h6, h7⟩ := h
   rw [nodeStr.eq_def]
-  simp [h1, h2, h3, h4, h5, hm]
+  simp [h1, h2, h3, h4, h5, h6, h7, hm]
   cases kidsStr sty st kids with
   | error e => rfl
   | ok v => rfl
 
 theorem nodeStr_leaf (sty : Styles) (st : MSt) (q : Str) (a : Attrs) (kids : List Node) (m : MName) (h : notBlock q)
     (hm : moinMethod q = some m) (hl : leafMethod m = true) : ∃ t, nodeStr sty st (.elem q a kids) = .ok (t, st) := by
-  obtain ⟨h1, h2, h3, h4, h5⟩ := h
+  obtain ⟨h1, h2, h3, h4, h5, h6, h7⟩ := h
   rw [nodeStr.eq_def]
-  simp only [h1, h2, h3, h4, h5, hm]
+  simp only [h1, h2, h3, h4, h5, h6, h7, hm]
   cases m <;> simp [leafMethod] at hl <;> simp
 
 mutual
